@@ -9,8 +9,8 @@ Definition err (s : string) : list N := s2l "ERR " ++ s2l s.
 (* split a token list at ";" tokens *)
 Fixpoint split_ops (ts : list (list N)) (cur : list (list N)) : list (list (list N)) :=
   match ts with
-  | [] => [List.rev cur]
-  | t :: r => if is t ";" then List.rev cur :: split_ops r [] else split_ops r (t :: cur)
+  | [] => [rev_append cur []]
+  | t :: r => if is t ";" then rev_append cur [] :: split_ops r [] else split_ops r (t :: cur)
   end.
 
 Definition push_scripts (st : cstate) (w : list wev) (f : list fev) (r : list revt) : cstate :=
